@@ -27,6 +27,7 @@ let run () =
   let st = ref ast0 in                      (* ADF session; for HDF5 only its disk is used *)
   let paths : (int, z list) Hashtbl.t = Hashtbl.create 8 in
   let opened : (int, bool) Hashtbl.t = Hashtbl.create 8 in
+  let foreign : (int, bool) Hashtbl.t = Hashtbl.create 8 in
   let is_open f = try Hashtbl.find opened f with Not_found -> false in
   let env_adf = ref [] and env_hdf = ref [] and env_cgns = ref [] and plist = ref [] in
   let push_env () = st := adf_setenv !st { e_adf = !env_adf; e_hdf = !env_hdf; e_cgns = !env_cgns; e_list = !plist } in
@@ -74,6 +75,13 @@ let run () =
           print_string "ok\n"
       | ["decoy"; p; ty] -> set_disk (disk_set !st.a_disk { d_path = bytes_of_hex p; d_type = zi ty; d_tab = [] }); print_string "ok\n"
       | ["unlinkf"; p] -> set_disk (disk_del !st.a_disk (bytes_of_hex p)); print_string "ok\n"
+      | ["junk"; p] -> set_disk (disk_set !st.a_disk { d_path = bytes_of_hex p; d_type = Z0; d_tab = [] }); print_string "ok\n"
+      | ["file"; f; p; be; md] when (be = "adf") <> adf ->
+          (* a file of the OTHER back end: for this session it only exists (a decoy on the search path) *)
+          let f = int_of_string f in
+          if md = "w" then set_disk (disk_set !st.a_disk { d_path = bytes_of_hex p; d_type = z_of_int (if be = "adf" then 1 else 2); d_tab = [] });
+          Hashtbl.replace foreign f true; print_string "ok\n"
+      | ["closef"; f] when Hashtbl.mem foreign (int_of_string f) -> Hashtbl.remove foreign (int_of_string f); print_string "ok\n"
       | ["file"; f; p; _; md] ->
           let f = int_of_string f in
           Hashtbl.replace paths f (bytes_of_hex p);
@@ -124,7 +132,8 @@ let run () =
           let f = int_of_string f in
           if not (is_open f) then print_string "err other\n" else
           let p = Hashtbl.find paths f in
-          if adf && not (file_open !st p) then print_string "ok S: !err other\n" else
+          let alive = (match disk_get !st.a_disk p with Some df -> (match find_node df.d_tab (zi u) with Some _ -> true | None -> false) | None -> false) in
+          if alive && adf && not (file_open !st p) then print_string "ok S: !err other\n" else
           (match disk_get !st.a_disk p with
            | None -> print_string "err other\n"
            | Some df ->
